@@ -125,3 +125,12 @@ Theorem C13_check_fails_exactly_when_a_rewrite_would_change_a_file : forall renu
   (Cli.renumber_check_all renum files t = Cli.Success <-> Cli.renumber_all renum files t = t).
 Proof. exact CliCheckProofs.renumber_check_agrees_with_renumber. Qed.
 Print Assumptions C13_check_fails_exactly_when_a_rewrite_would_change_a_file.
+
+(* ... and for the bytes of the file: what renumber-tests writes is the spec's lines, each ended by a
+   newline, with the end of the file normalised (one final newline: C13_one_final_newline) *)
+Theorem C13_file_bytes_meet_the_spec : forall limit rule contents,
+  Forall plain_line (scan_lines limit contents) -> balanced 0 0 (scan_lines limit contents) ->
+  process_yaml limit rule contents =
+  join [10] (format_eof_ws (split_on 10 (unlines (renumber_spec rule 0 0 (scan_lines limit contents))))).
+Proof. exact process_yaml_meets_spec. Qed.
+Print Assumptions C13_file_bytes_meet_the_spec.
